@@ -301,6 +301,12 @@ theorem ringCheckLoop_eq {n r} {buf : List Ev} (hn : 0 < n) (h : RInv n r buf.le
     · rw [h.size, incWrap_mod n j hn]
       exact ih (j + 1) f _ (by omega) (by split <;> omega) (by omega)
 
+/-- the loop of `region_in_place` is the same test -/
+theorem inPlaceLoop_eq (last : Nat) (l : List Ev) : inPlaceLoop last l = chainOk last l := by
+  induction l generalizing last with
+  | nil => rfl
+  | cons e t ih => unfold inPlaceLoop chainOk; rw [ih]
+
 theorem chainOk_of_sorted {l : List Ev} (h : Sorted l) : ∀ last, (∀ e ∈ l, last ≤ e.clock) → chainOk last l = true := by
   unfold Sorted at h
   induction l with
@@ -313,7 +319,23 @@ theorem chainOk_of_sorted {l : List Ev} (h : Sorted l) : ∀ last, (∀ e ∈ l,
     simp only [show ¬ (a.clock < last) by omega, if_false]
     exact ih h.2 _ h.1
 
-/-! ### execute_sort_plan without the ring -/
+theorem chainOk_sorted {l : List Ev} : ∀ {last}, chainOk last l = true →
+    Sorted l ∧ ∀ e ∈ l, last ≤ e.clock := by
+  induction l with
+  | nil => intro _ _; exact ⟨List.Pairwise.nil, fun _ h => by cases h⟩
+  | cons a t ih =>
+    intro last h
+    unfold chainOk at h
+    split at h
+    · cases h
+    · rename_i hlt
+      obtain ⟨h1, h2⟩ := ih h
+      refine ⟨List.pairwise_cons.2 ⟨h2, h1⟩, fun e he => ?_⟩
+      rcases List.mem_cons.1 he with rfl | he
+      · omega
+      · have := h2 e he; omega
+
+/-! ### execute_sort_plan (the part that sorts) without the ring -/
 
 theorem minClock_le_init (init : Nat) (l : List Ev) : minClock init l ≤ init := by
   unfold minClock
@@ -378,9 +400,9 @@ theorem firstOf_lt {n buf m first} (hk : 1 ≤ buf.length) (h : firstOf n buf m 
 
 theorem exec_eq {n r} (sortFn : List Ev → List Ev) (buf : List Ev) (bad0 : Nat) (hn : 0 < n)
     (h : RInv n r buf.length) (hk : 1 ≤ buf.length) (hlen : ∀ l, (sortFn l).length = l.length) :
-    executeSortPlan sortFn buf r bad0 =
+    sortRegion sortFn buf r bad0 =
       ((execAbs sortFn n buf bad0).1, (execAbs sortFn n buf bad0).2.1, r, (execAbs sortFn n buf bad0).2.2) := by
-  unfold executeSortPlan execAbs
+  unfold sortRegion execAbs
   have hm : (if minClock (clockAt buf bad0) (buf.drop bad0) < clockAt buf bad0
       then minClock (clockAt buf bad0) (buf.drop bad0) else clockAt buf bad0) = regionMin buf bad0 := by
     have := minClock_le_init (clockAt buf bad0) (buf.drop bad0)
